@@ -67,6 +67,7 @@ theorem FI.setPend {ex' : Option Nat} {s' : BSt} (h : FI ex pf s) (a : Nat) (p' 
     flgP := fun f hf => by
       obtain ⟨i, st, h1, h2⟩ := h.flgP f hf
       exact ⟨i, st, by rw [(hth i).pop]; exact h1, h2⟩
+    popFlag := fun i => by rw [(hth i).pop, hflags]; exact h.popFlag i
     rem := fun gf hgf => by
       rw [hrem] at hgf
       obtain ⟨i, st, h1, h2⟩ := h.rem gf hgf
@@ -188,6 +189,7 @@ theorem FI.enq {a : Nat} (h : FI (some a) pf s) (ci : Nat) (st : Stmt) (hfr : Fr
     flgP := fun g hg => by
       obtain ⟨i, r, h1, h2⟩ := h.flgP g hg
       exact ⟨i, r, by rw [hpopd]; exact h1, h2⟩
+    popFlag := fun i => by rw [hpopd]; exact h.popFlag i
     rem := fun gf hgf => by
       obtain ⟨i, r, h1, h2⟩ := h.rem gf hgf
       exact ⟨i, r, hacc i r h1, h2⟩
@@ -459,13 +461,16 @@ theorem FI.applyFront (h : FI none pf s) (f : FOp) : FI none pf (Backend.applyFr
     exact h.frame ((SLOL.setSink _ _ _).trans (slol_reapSinks _ _)).core2
   | query => exact h
 
-theorem FI.foldFront (ops : List FOp) (e : BSt → FOp → Ev) (s1 : BSt) (h1 : FI none pf s1) :
-    FI none pf (ops.foldl (fun s f => (Backend.applyFront s f).1.emit (e s f)) s1) := by
+theorem FI.foldFront (ops : List FOp) (skip : FOp → Bool) (e : BSt → FOp → Ev) (s1 : BSt) (h1 : FI none pf s1) :
+    FI none pf (ops.foldl (fun s f => (if skip f then (s, "noop") else Backend.applyFront s f).1.emit (e s f)) s1) := by
   induction ops generalizing s1 with
   | nil => exact h1
   | cons f fs ih =>
     rw [List.foldl_cons]
-    exact ih _ ((h1.applyFront f).frame rfl)
+    apply ih
+    split
+    · exact h1.frame rfl
+    · exact (h1.applyFront f).frame rfl
 
 theorem FI.runInj (h : FI none pf s) (table : List (Nat × Nat × List FOp)) (site : Nat) :
     FI none pf (Backend.runInj table s site) := by
@@ -473,6 +478,8 @@ theorem FI.runInj (h : FI none pf s) (table : List (Nat × Nat × List FOp)) (si
   simp only
   split
   · exact h.frame rfl
-  · exact FI.foldFront _ (fun s f => Ev.inj site _ f.show (Backend.applyFront s f).2) _ (h.frame rfl)
+  · exact FI.foldFront _ (fun f => decide (site = 9) && f.needsManagerLock)
+      (fun s f => Ev.inj site _ f.show (if (decide (site = 9) && f.needsManagerLock) = true then (s, "noop")
+        else Backend.applyFront s f).2) _ (h.frame rfl)
 
 end Backend.PB
